@@ -17,7 +17,7 @@ var (
 
 func pt(what string, addr unsafe.Pointer) {
 	s := vmc.S
-	if s == nil {
+	if !vmc.InExecution() {
 		return
 	}
 	vmc.Step("atomic." + what)
